@@ -22,7 +22,7 @@ var mixC14 = Mix{Set: 34, Delete: 10, GetItem: 2, Visit: 1, Flush: 14, Evict: 4,
 func init() {
 	register(&Prop{
 		ID: "C14", Level: "exploration",
-		Rule:        "writer side: random histories (key lengths 1..65535 incl. the boundaries 255/256/65535, value lengths 0..4 KB plus a 1 MB value in some cases, 0-4 collections with plain and exotic names, magic-laden data, all callback configurations) - after EVERY successful Flush and for every CopyTo destination the file image is parsed by the independent decoder (standard library only, no gkvlite code): root record framing (doubled markers, version 4, both length fields, offset field, JSON map of root locations), every reachable node record (52 bytes, inside the data area, written after its item and both children) and item record (self-delimiting: location length = header total = 16+key+value), exact aggregates, key order; the decoded state must equal the model's flushed state, and the last write of every Flush must be exactly one root record. Reader side: files produced by the harness's own independent ENCODER from random states (1-3 appended flushes, different tree shapes than gkvlite would build) must be opened by gkvlite and read back to exactly that state, then mutated, flushed and decoded again. Concurrent cases: a flusher runs next to a mutator (and readers) under the deterministic yield-point scheduler; the image after every concurrent Flush must decode and every collection in it must have exactly the contents of a version that was current during that Flush. Non-trivial = image with >= 2 flushes and >= 1 non-empty collection (writer) / any encoder file (reader); distinct = distinct image hash.",
+		Rule:        "writer side: random histories (key lengths 1..65535 incl. the boundaries 255/256/65535, value lengths 0..4 KB plus a 1 MB value in some cases, 0-4 collections with plain and exotic names, magic-laden data, all callback configurations) - after EVERY successful Flush and for every CopyTo destination the file image is parsed by the independent decoder (standard library only, no gkvlite code): root record framing (doubled markers, version 4, both length fields, offset field, JSON map of root locations), every reachable node record (52 bytes, inside the data area, written after its item and both children) and item record (self-delimiting: location length = header total = 16+key+value), exact aggregates, key order; the decoded state must equal the model's flushed state, and a complete root record must end exactly where the last write of every Flush ended. Reader side: files produced by the harness's own independent ENCODER from random states (1-3 appended flushes, different tree shapes than gkvlite would build) must be opened by gkvlite and read back to exactly that state, then mutated, flushed and decoded again. Concurrent cases: a flusher runs next to a mutator (and readers) under the deterministic yield-point scheduler; the image after every concurrent Flush must decode and every collection in it must have exactly the contents of a version that was current during that Flush. Non-trivial = image with >= 2 flushes and >= 1 non-empty collection (writer) / any encoder file (reader); distinct = distinct image hash.",
 		Assumptions: []string{"collection names are valid UTF-8", "the decoder's reading of the format description (package comment of internal/decoder) is the specification"},
 		NumCases:    func(tier string) int { return pick(tier, 600, 20000) + pick(tier, 200, 5000) + pick(tier, 400, 12000) },
 		Run:         runC14,
@@ -80,8 +80,8 @@ func runC14(ctx *Ctx, idx int) Result {
 			if len(wl) > 0 {
 				last := wl[len(wl)-1]
 				if last.Tag == "Flush" {
-					if !decoder.IsRootRecord(last.Data, last.Off) {
-						e.Failf("C14/last-write-of-flush-not-a-root-record", "the last write of a successful Flush (off %d, len %d) is not one complete root record", last.Off, last.Len)
+					if !decoder.RootEndsAt(e.F.Bytes(), last.Off+int64(last.Len)) {
+						e.Failf("C14/flush-does-not-end-with-a-root-record", "no complete root record ends where the last write of a successful Flush ended (off %d, len %d)", last.Off, last.Len)
 					}
 					ctx.Stats["c14.root-last-checked"]++
 				}
